@@ -13,8 +13,10 @@ TYPES = ['Aa', 'Bb', 'Cc', 'Dd']
 QUICK_ATOMS = ('down', 'peers', 'rights', 'owner', 'vcut', 'vdown')
 PLANS = {
     'quick': [(1, None, 3, 2, True, True), (2, QUICK_ATOMS, 3, 2, False, False), (2, 'NESTED', 3, 2, True, False)],
-    'thorough': [(1, None, 4, 2, True, True), (2, None, 3, 2, True, False), (2, QUICK_ATOMS, 3, 3, False, False),
-                 (3, ('down', 'peers', 'rights', 'vdown'), 3, 2, False, False)],
+    # (sized for about 3.5 * 10^5 generated graphs; the first version of this tier had 1.3 million and was never run to the end)
+    'thorough': [(1, None, 3, 2, True, True), (1, None, 4, 2, False, False), (2, None, 3, 2, False, False),
+                 (2, QUICK_ATOMS, 3, 3, False, False), (2, 'NESTED', 3, 2, True, False),
+                 (3, ('down', 'peers', 'rights', 'vdown'), 3, 1, False, False)],
 }
 
 _BASE = sem.Lang(families.sem_lang())
